@@ -44,7 +44,7 @@ PROPS = {
              "thorough": [("TaskPool_c20_quick", "TaskPool_c20_quick.cfg", TP), ("TaskPool_c20_thorough", "TaskPool_c20_thorough.cfg", TP)]},
         dev=[],
         family="C20", drivers=["d1"], mech=("pool", "T_TaskPool.tla", "T_TaskPool.cfg"),
-        passes={"quick": [("mix", 6, None), ("demote", 300, 8)], "thorough": [("mix", 60, None), ("delay", 1, 100), ("demote", 600, 20)]},
+        passes={"quick": [("mix", 6, None), ("demote", 400, 16)], "thorough": [("mix", 60, None), ("delay", 1, 100), ("demote", 600, 20)]},
         nontrivial=r'"ev":"(Probe|ServerDrop)"',
         rule="scenarios: bursts followed by idle periods with thread-count probes; server drop with held requests and later connects (family C20); distinct = distinct observable traces",
     ),
